@@ -310,7 +310,7 @@ def function_table(rep, R, ix, f, G, ftoks):
     fn = f.node
     p_fun, p_arg = f.params[0], f.params[1]
     tables = {}
-    for scope in (ix.module_globals(f.mod), {u(n.targets[0]): n.value for n in ast.walk(fn) if isinstance(n, ast.Assign) and isinstance(n.targets[0], ast.Name)}):
+    for scope in (ix.module_globals(f.mod, follow=True), {u(n.targets[0]): n.value for n in ast.walk(fn) if isinstance(n, ast.Assign) and isinstance(n.targets[0], ast.Name)}):
         for name, val in scope.items():
             if isinstance(val, ast.Dict) and val.keys and all(isinstance(k, ast.Constant) and isinstance(k.value, str) for k in val.keys):
                 tables[name] = {k.value: u(v) for k, v in zip(val.keys, val.values)}
